@@ -94,9 +94,9 @@ func generate(r *hx.Rand, n int, tier string) []runDesc {
 	if tier == "thorough" {
 		scale = 4
 	}
-	for i := 0; i < quota(38); i++ {
+	for i := 0; i < quota(28); i++ {
 		d := runDesc{Kind: "pool", Seed: r.U64() % 1000000, Cap: 1 + r.Intn(6), Workers: 2 + r.Intn(7), Ops: (20 + r.Intn(60)) * scale,
-			UnusablePct: []int{0, 10, 30, 60}[r.Intn(4)], DialFailPct: []int{0, 0, 5, 20}[r.Intn(4)], PoolClose: []int{0, 0, 1, 2}[r.Intn(4)]}
+			UnusablePct: []int{0, 10, 30, 60}[r.Intn(4)], DialFailPct: []int{0, 0, 5, 20}[r.Intn(4)], PoolClose: []int{0, 0, 1, 2, 3}[r.Intn(5)]}
 		if r.Chance(50) {
 			d.IdleMs = 1 + r.Intn(3)
 		}
@@ -105,11 +105,11 @@ func generate(r *hx.Rand, n int, tier string) []runDesc {
 		}
 		ds = append(ds, d)
 	}
-	for i := 0; i < quota(26); i++ {
+	for i := 0; i < quota(22); i++ {
 		nw := 2 + r.Intn(3)
 		ds = append(ds, runDesc{Kind: "fieldsched", Seed: r.U64() % 1000000, Writers: genWriters(r, nw, false), Schedule: genSchedule(r, nw)})
 	}
-	for i := 0; i < quota(16); i++ {
+	for i := 0; i < quota(22); i++ {
 		ds = append(ds, runDesc{Kind: "fieldfree", Seed: r.U64() % 1000000, Writers: genWriters(r, 4+r.Intn(6), true)})
 	}
 	for i := 0; i < quota(5); i++ {
@@ -128,6 +128,12 @@ func generate(r *hx.Rand, n int, tier string) []runDesc {
 	}
 	for i := 0; i < quota(1); i++ {
 		ds = append(ds, runDesc{Kind: "auth", Seed: r.U64() % 1000000, Ops: 2 * scale, Workers: 2 + r.Intn(2)})
+	}
+	for i := 0; i < quota(2); i++ {
+		ds = append(ds, runDesc{Kind: "metawait", Seed: r.U64() % 1000000, Ops: 600 * scale, Workers: 2 + r.Intn(3)})
+	}
+	for i := 0; i < quota(8); i++ {
+		ds = append(ds, runDesc{Kind: "cachekey", Seed: r.U64() % 1000000, Ops: (15 + r.Intn(25)) * scale, Workers: 2 + r.Intn(5)})
 	}
 	for i := 0; i < quota(4); i++ {
 		ds = append(ds, runDesc{Kind: "hh", Seed: r.U64() % 1000000, Workers: 2 + r.Intn(3), Ops: (20 + r.Intn(40)) * scale, PoolClose: r.Intn(2)})
